@@ -156,6 +156,7 @@ pub mod novasmt {
         #[verifier::external_body]
         pub fn root_hash(&self) -> (r: [u8; 32]) ensures r == root_of(self@) { unimplemented!() }
     }
+    pub use super::novasmt_db::Database;
     /// every tree view is total (absent keys read as the empty string)
     pub broadcast axiom fn axiom_tree_total<C: ContentAddrStore>(t: Tree<C>, k: Seq<u8>) ensures #[trigger] t@.contains_key(k);
 }
